@@ -373,6 +373,14 @@ def emit(ctx, repo=None, lean_dir=None):
     return info
 
 
+def emit_units(ctx, repo=None, lean_dir=None):
+    """third generated module `lean/PyrollModel/Gen/C02Units.lean`: which `get_root_hook_results` override evaluates which
+    objects' root hooks, for every unit class of pyroll/core (class hierarchy, MROs, overrides, constructed objects, the
+    root_hooks list, the loop of Unit.solve) - extractor and self-check: driver/translate/c02_units.py"""
+    from . import c02_units
+    return c02_units.emit(ctx, repo, lean_dir)
+
+
 # ---- the facts are executed against the code they were read from -------------------------------------------------------
 
 def self_check(f):
